@@ -7,7 +7,10 @@
   copying it into each branch, so k sequenced or nested branch points never cost 2^k."
 
   Model: Scc.Fun2Core.Model (tied to /repo/lang/fun2core by exact S2 dump equality).
-  Sizes: node counts `funSize` / `stmtSize` / `termSize` / `defSize` of Scc.Fun2Core.Size.
+  Sizes: node counts `funSize` / `stmtSize` / `termSize` / `defSize` of Scc.Fun2Core.Size (a source
+  clause counts 1 + its binder names + its typed binders; a target clause 1 + its binders).
+  State of /repo: including the capture guard of ce30c7b (each guarded `let`/`case` costs a constant
+  `⟨μa.… | c⟩` wrapper, absorbed in the per-node budget).
 
   What is proved (all for the real model functions, by mutual structural induction over
   Term / Terms / Clauses in Scc.Fun2Core.SizeProofs):
@@ -20,13 +23,17 @@
         or `μ~x.exit p` with p a variable/literal; size ≤ 3, `C19_leaf_size`), otherwise `share`
         replaces it by `μ~x.share_f_n(fv)` of size arity + 2 (`C19_share_size`).
     * C19_fun2core_prog: program level, `|S2| ≤ 3 * |S1| * (v + 4)` where `v` bounds the number of
-        parameters of the definitions of the OUTPUT (a quantity read off the output; it is at most
-        the number of distinct typed variables in scope).
-  Not proved here: that `v` is itself bounded by the number of variables in scope of the SOURCE
-  (kept as `def C19_fun2core_arity_statement`); the later stages (focus, shrink, linearize, codegen)
-  belong to other components.
+        parameters of the definitions of the OUTPUT.
+    * C19_fun2core_arity: FULL: every definition of the output (user or lifted) has at most
+        `2 * |S1|` parameters — the parameters of a lifted definition are duplicate-free typed free
+        variables of the shared continuation, all of which are typed names mentioned by the enclosing
+        definition (each source node contributes at most two: its own occurrence / fresh covariable
+        and the fresh variable of a `share`).  (Scc.Fun2Core.FreeVars, Scc.Fun2Core.Arity)
+    * C19_fun2core_full: UNCONDITIONAL: `|S2| ≤ 3 * n * (2 * n + 4) = 6 n² + 12 n`, `n = |S1|`.
+  The later stages (focus, shrink, linearize, codegen) belong to other components.
 -/
 import Scc.Fun2Core.SizeProofs
+import Scc.Fun2Core.Arity
 
 namespace Scc.Props
 open Scc Scc.Fun2Core
@@ -88,13 +95,25 @@ theorem C19_fun2core_prog (v : Nat) (p : Fun.CheckedProgram) (q : Core.Prog)
     unfold W; rw [Nat.mul_comm 3 (funProgSize p), Nat.mul_assoc]
   omega
 
-/-- NOT PROVED (statement kept): the number of parameters of every lifted definition is bounded by
-the number of typed variables in scope at the branching point, hence by the parameters of the
-enclosing definition plus the binders and generated names of its body, so that `v ≤ |S1|` and the
-bound of `C19_fun2core_prog` is quadratic in `|S1|` unconditionally. -/
+/-- the number of parameters of every definition of the output is linear in the source size -/
 def C19_fun2core_arity_statement : Prop :=
   ∀ (p : Fun.CheckedProgram) (q : Core.Prog), compileProg p = .ok q →
-    ∀ d ∈ q.defs, d.ctx.length ≤ 2 * funProgSize p + 1
+    ∀ d ∈ q.defs, d.ctx.length ≤ 2 * funProgSize p
+
+/-- FULL: user definitions have their parameters + 1; a lifted definition has as parameters the
+duplicate-free typed free variables of the shared continuation. -/
+theorem C19_fun2core_arity : C19_fun2core_arity_statement :=
+  fun _ _ h => compileProg_arity h
+
+/-- C19 for the stage S1 → S2, unconditional: the size of the Core program is at most quadratic in
+the size of the checked Fun program (`3 * n * (2 * n + 4)`), whatever the nesting or sequencing of
+branching constructs. -/
+def C19_fun2core_full_statement : Prop :=
+  ∀ (p : Fun.CheckedProgram) (q : Core.Prog), compileProg p = .ok q →
+    progSize q ≤ 3 * funProgSize p * (2 * funProgSize p + 4)
+
+theorem C19_fun2core_full : C19_fun2core_full_statement :=
+  fun p q h => C19_fun2core_prog _ p q h (compileProg_arity h)
 
 /-! ## non-vacuity: concrete instances (evaluated by the kernel) -/
 
@@ -121,6 +140,22 @@ is lifted, and 16 + 9 ≤ 3 * 4 * (3 + 4) + 6 -/
 example : C19_exSizes = some (16, 9, 3) := by decide
 example : funSize C19_exTerm = 4 ∧ termSize C19_exCont = 6 := by decide
 
+/-- `def share_f_0(x) {x}  def f(x,y) { let z = if x == y {1} else {2}; share_f_0((z + x)) }
+def main() { f(1,2) }` (S1 dump of the harness) -/
+def C19_exProg : Fun.CheckedProgram :=
+  ⟨[],
+   [],
+   [⟨"share_f_0", [⟨"x", .prd, .i64⟩], .i64, (.var "x" (some .i64) (some .prd))⟩, ⟨"f", [⟨"x", .prd, .i64⟩, ⟨"y", .prd, .i64⟩], .i64, (.letIn "z" .i64 (.ifc .eq (.var "x" (some .i64) (some .prd)) (.var "y" (some .i64) (some .prd)) (.lit (1)) (.lit (2)) (some .i64)) (.call "share_f_0" (.cons (.paren (.op (.var "z" (some .i64) (some .prd)) .sum (.var "x" (some .i64) (some .prd)))) .nil) (some .i64)) (some .i64))⟩, ⟨"main", [], .i64, (.call "f" (.cons (.lit (1)) (.cons (.lit (2)) .nil)) (some .i64))⟩]⟩
+
+def C19_exProgSizes : Option (Nat × Nat) :=
+  match compileProg C19_exProg with
+  | .ok q => some (funProgSize C19_exProg, progSize q)
+  | .error _ => none
+
+/-- the hypothesis of `C19_fun2core_full` holds for a concrete program: |S1| = 21, |S2| = 43
+(≤ 3 * 21 * 46) -/
+example : C19_exProgSizes = some (21, 43) := by decide
+
 end examples
 
 /-! ## axioms -/
@@ -130,5 +165,7 @@ end examples
 #print axioms C19_leaf_size
 #print axioms C19_share_size
 #print axioms C19_fun2core_prog
+#print axioms C19_fun2core_arity
+#print axioms C19_fun2core_full
 
 end Scc.Props
